@@ -691,6 +691,9 @@ T_KINDS = collections.OrderedDict([
     ('col,agg', [(Y, 'k'), (AGG, 'a')]),
     ('col2,agg', [(Y, 'k'), (AC, 's'), (CNT, 'n')]),
     ('aggagg', [(F('sum', AGG), 'a')]),
+    # the inner aggregate below intermediate nodes (operator / function / several levels)
+    ('aggagg-indirect', [(F('sum', A.Mul(AGG, C(2))), 'a')]),
+    ('aggagg-deep', [(F('max', A.Sub(M, A.Neg(F('min', M)))), 'a'), (CNT, 'n')]),
     ('mixed', [(A.Add(Y, AGG), 'a')]),
     ('agg+const', [(A.Add(AGG, C(1)), 'a')]),
     ('const', [(C(1), 'c')]),
@@ -708,7 +711,7 @@ T_KINDS = collections.OrderedDict([
     ('attr-bad', [(A.Attribute(Y, 'foo'), 'k')]),
     ('subscript', [(A.Subscript(META, 'k'), 'k'), (A.Subscript(Y, 'k'), 'j')]),
 ])
-T_RED = ['col', 'col2', 'agg', 'col,agg', 'col2,agg', 'aggagg', 'mixed', 'agg+const', 'const', 'const,agg', 'subselect', 'expr,agg', 'unhashable']
+T_RED = ['col', 'col2', 'agg', 'col,agg', 'col2,agg', 'aggagg', 'aggagg-indirect', 'aggagg-deep', 'mixed', 'agg+const', 'const', 'const,agg', 'subselect', 'expr,agg', 'unhashable']
 
 W_KINDS = collections.OrderedDict([
     ('none', None),
